@@ -204,15 +204,22 @@ class RecvProto(Suite):
         n = {"quick": 300, "thorough": 8000, "search": 150}[tier]
         ops = []
         for _ in range(n):
-            tree = gen.disk_tree(rng, rng.choice([6, 15, 40]), 4, types=("dir", "file", "symlink", "fifo", "chr", "hardlink"),
-                                 file_sizes=(0, 1, 5, 100, 4096, 32767, 32768, 32769, 70000, 1200000 if rng.random() < 0.1 else 100))
+            wide = rng.random() < 0.04
+            if wide:
+                # more files needing content than any internal queue or worker limit can hold (STATs first, answers later)
+                tree = flat_view(rng, rng.choice([350, 500]), (10, 100))
+            else:
+                tree = gen.disk_tree(rng, rng.choice([6, 15, 40]), 4, types=("dir", "file", "symlink", "fifo", "chr", "hardlink"),
+                                     file_sizes=(0, 1, 5, 100, 4096, 32767, 32768, 32769, 70000, 1200000 if rng.random() < 0.1 else 100))
             r = rng.random()
-            dst = [] if r < 0.4 else gen.mutate_disk_tree(rng, tree) if r < 0.85 else gen.disk_tree(rng, 10, 3, types=("dir", "file", "symlink"))
+            dst = [] if r < 0.4 or wide else gen.mutate_disk_tree(rng, tree) if r < 0.85 else gen.disk_tree(rng, 10, 3, types=("dir", "file", "symlink"))
             big = any(e.get("size", 0) > 100000 for e in tree)
             chunk = [rng.choice([1, 2, 7, 100, 1000] if not big and sum(e.get("size", 0) for e in tree) < 20000 else [4096, 32768, 100000, 1048576])
                      for _ in range(rng.randint(1, 3))]
-            ref = {"chunk": chunk, "interleave": rng.choice(["fifo", "rr", "random", "reverse"]), "eager": rng.random() < 0.5,
+            ref = {"chunk": chunk, "interleave": rng.choice(["fifo", "rr", "random", "reverse"]), "eager": rng.random() < 0.5 and not wide,
                    "seed": rng.randrange(1 << 30)}
+            if wide:
+                ref["chunk"] = [4096]
             if rng.random() < 0.08:
                 ref["eof_before_fin"] = True
             op = {"op": "recvproto", "src": {"kind": "mem", "tree": tree}, "dst": dst, "ref": ref,
@@ -323,7 +330,7 @@ class Hostile(Suite):
     needs_root = True
     rule = ("packet scripts of a hostile sender run against real Receive in a chroot'ed child process with sentinel trees beside and above dest: valid "
             "STAT walks mutated by ill-formed paths (.., ., '', a/../.., absolute, //, trailing /, backslash), duplicates, swaps, missing parents, "
-            "children of files/symlinks, mode words with several type bits set (dir+symlink ...) plus link names, hard links to unknown/escaping names, symlink entries with xattrs pointing outside, DATA for ids never requested, "
+            "children of files/symlinks, mode words with several type bits set (dir+symlink ...) plus link names, entries named like the writer's temporary files as symlinks pointing outside, hard links to unknown/escaping names, symlink entries with xattrs pointing outside, DATA for ids never requested, "
             "ERR; dirty destinations containing symlinks that point outside; non-trivial = script with >= 2 packets, distinct")
 
     def gen(self, rng, tier):
@@ -402,6 +409,23 @@ class Hostile(Suite):
                         script.insert(k + 1, {"t": "STAT", "stat": st})
                     if not script:
                         break
+            forced_dst = []
+            if rng.random() < 0.08 and all(x["t"] == "STAT" for x in script):
+                # entries named like the writer's own temporary files (".tmp.<suffix>", small counters and a few fixed guesses) as symlinks
+                # pointing outside dest, and a regular file that replaces an existing destination entry (which goes through such a name)
+                for k in rng.sample([1, 2, 3, 4, 5, 0], rng.randint(2, 5)):
+                    nm = b".tmp.%09d" % k if rng.random() < 0.8 else b".tmp.%d" % k
+                    script.append({"t": "STAT", "stat": {"p": hx(nm), "mode": (1 << 27) | 0o777, "uid": 0, "gid": 0, "size": 0, "mt": gen.MTIMES[0],
+                                                         "ln": hx(rng.choice([b"/outside/f", b"../../../outside/f", b"/x/sent"])), "dmaj": 0, "dmin": 0, "x": []}})
+                script.append({"t": "STAT", "stat": {"p": hx(b"zfile"), "mode": 0o644, "uid": 0, "gid": 0, "size": 5, "mt": gen.MTIMES[1], "ln": "", "dmaj": 0, "dmin": 0, "x": []}})
+                seenp = set()
+                uniq = []
+                for x in script:
+                    if x["stat"]["p"] not in seenp:
+                        seenp.add(x["stat"]["p"])
+                        uniq.append(x)
+                script = sorted(uniq, key=lambda x: gen.pathkey(bytes.fromhex(x["stat"]["p"])))
+                forced_dst = [{"p": hx(b"zfile"), "t": "file", "size": 3, "uid": 0, "gid": 0, "mt": gen.MTIMES[0], "mode": 0o600}]
             stat_idx = [x for x in script if x["t"] == "STAT" and x.get("stat")]
             dir_ids = [i for i, x in enumerate(stat_idx) if x["stat"]["mode"] & (1 << 31)]
             for x in script:
@@ -424,7 +448,10 @@ class Hostile(Suite):
                         dst.append({"p": hx(t), "t": "dir", "uid": 0, "gid": 0, "mt": gen.MTIMES[0], "mode": 0o755})
                     elif kind == "file":
                         dst.append({"p": hx(t), "t": "file", "size": 3, "uid": 0, "gid": 0, "mt": gen.MTIMES[0], "mode": 0o644})
-            ops.append({"op": "hostile", "script": script, "dst": dst, "answer": rng.random() < 0.7,
+            if forced_dst:
+                dst = [e for e in dst if e["p"] != forced_dst[0]["p"]] + forced_dst
+                dst.sort(key=lambda e: gen.pathkey(bytes.fromhex(e["p"])))
+            ops.append({"op": "hostile", "script": script, "dst": dst, "answer": True if forced_dst else rng.random() < 0.7,
                         "opt": {"cap": rng.choice([0, 4, 32]), "seed": rng.randrange(1 << 30)}})
         return ops
 
